@@ -25,6 +25,12 @@ def instances(tier):
                       {"MSEL": m, "FILTER": "PIXMAN_FILTER_" + f, "REPEAT": "PIXMAN_REPEAT_" + r, "SWID": w, "SHEI": h},
                       unwind=12, unwindset=API_UNWINDSET + ("memcmp.0:40",), objbits=12, timeout=900, checks=["--bounds-check", "--pointer-check"],
                       desc={"what": "composite32 with a transformed, filtered, repeated exactly-sized source: every read/write inside the images' storage (CBMC bounds checks)"}))
+    for ux in ((1, 0x8000, 0x10000, 0x18000, 0x7fffffff) if tier == "quick" else (1, 2, 3, 0x5555, 0x8000, 0xffff, 0x10000, 0x10001, 0x18000, 0x30000, 0x1234567, 0x40000000, 0x7fffffff)):
+        L.append(Inst("scaler-pad-bounds-ux%x" % ux, "C04/padbounds.c", {"UNITX": ux}, link=[], unwind=2, timeout=900,
+                      desc={"what": "pad_repeat_get_scanline_bounds: for every source width, start coordinate, scanline width and pixel index the unguarded middle part samples inside the source row (unit_x concrete)"}))
+    for ux in ((0x10000,) if tier == "quick" else (1, 3, 0x5555, 0x8000, 0xffff, 0x10000, 0x10001, 0x18000, 0x30000, 0x1234567, 0x7fffffff)):
+        L.append(Inst("scaler-bilinear-zones-ux%x" % ux, "C04/padbounds.c", {"UNITX": ux, "BILINEAR": None}, link=[], unwind=2, timeout=900,
+                      desc={"what": "bilinear_pad_repeat_get_scanline_bounds: five zones exact for every source width, start coordinate, width and pixel index (unit_x concrete)"}))
     a1 = [("over_n_1_8888-opaque", {"SOLID_ALPHA": "0xffff"}), ("over_n_1_8888-translucent", {"SOLID_ALPHA": "0x8000"}), ("add_1_1", {"ADD11": None})]
     if tier == "thorough":
         a1 += [("over_n_1_0565-opaque", {"SOLID_ALPHA": "0xffff", "DFMT": "PIXMAN_r5g6b5"}), ("over_n_1_0565-translucent", {"SOLID_ALPHA": "0x8000", "DFMT": "PIXMAN_r5g6b5"}),
